@@ -32,3 +32,21 @@ SCHEMES = [
     dict(model="gray", fg=dict(t="gray", v=[255]), bg=dict(t="gray", v=[0])),           # inverted
     dict(model="gray16", fg=dict(t="rgba", v=[9, 8, 7, 255]), bg=dict(t="nrgba", v=[250, 251, 252, 255])),  # model differs from colour types
 ]
+
+
+# strings that have a special meaning in one symbology or another (ISO 15434 envelopes / DataMatrix macros, symbology identifiers, GS1 separators and
+# application identifiers, ECI escapes, structured append): an encoder that starts to "understand" one of them must still reproduce every content
+MAGIC = [b"[)>\x1e05\x1d", b"[)>\x1e06\x1d", b"\x1e\x04", b"[)>\x1e05\x1dABC\x1e\x04", b"[)>\x1e06\x1d12345\x1e\x04", b"[)>\x1e05\x1dno trailer", b"[)>\x1e07\x1dX\x1e\x04",
+         b"]d2", b"]Q3", b"]C1", b"]z3", b"\x1d", b"\x1c\x1d\x1e\x1f", b"(01)09501101530003(17)250101", b"010950110153000317250101",
+         b"\\000026", b"\\000003", b"\\\\", b"\x1b", b"\xef\xbb\xbf", b"\xff\xfe", b"\x00", b"\x00\x00\x00"]
+
+
+def magic_contents(rng, n_plain=3):
+    """MAGIC alone, and as prefix / suffix / infix of ordinary text and digits"""
+    out = []
+    for m in MAGIC:
+        out.append(m)
+        out.append(m + b"Hello 123")
+        out.append(b"abc" + m)
+        out.append(b"12" + m + b"34 xyz")
+    return out
